@@ -26,6 +26,7 @@ def main():
     assumptions = c.audit(["Props.C14", "Props.C14b"], THEOREMS) if ok_mk else {}
     binary = c.build_harness("release")
     counts, mism, total, nchecked, fails, dist = {}, [], (0, 0), 0, [], {}
+    cli = None
     samples = []
     casefile = os.path.join(c.work, "cases.txt")
     if binary and c.run_harness(binary, "c14", casefile):
@@ -55,6 +56,33 @@ def main():
                 for f in dfails:
                     c.violation(f, "no panic, result congruent", f["impl"],
                                 "debug build: %s %s" % (f["op"], f["why"]))
+    # SIMD builds: packed lanes of AVX2 / AVX-512 builds against the oracle and the scalar model
+    simd = {}
+    if a.tier == "thorough" or os.environ.get("VERIF_C14_SIMD") == "1":
+        import shutil
+        cpu = open("/proc/cpuinfo").read()
+        flavours = [("avx2", "-C target-feature=+avx2")]
+        if "avx512f" in cpu:
+            flavours.append(("avx512", "-C target-feature=+avx512f,+avx512bw,+avx512cd,+avx512dq,+avx512vl"))
+        for name, flags in flavours:
+            if name == "avx2" and "avx2" not in cpu:
+                continue
+            sbin = c.build_harness("release", rustflags=flags, target_dir="target_c14_" + name)
+            if sbin:
+                sfile = os.path.join(c.work, "cases_%s.txt" % name)
+                if c.run_harness(sbin, "c14", sfile):
+                    sn, sfails, sdist = oracle_scan(c, sfile)
+                    simd[name] = {"cases": sn, "oracle_failures": len(sfails),
+                                  "packed_lane_cases": sum(v for k, v in sdist.items() if k.startswith("p"))}
+                    for f in sfails:
+                        c.violation(dict(f, build=name), "result congruent to the specification", f["impl"],
+                                    "%s build contradicts the field specification: %s %s" % (name, f["op"], f["why"]))
+                    if ok_mk and cli:
+                        _, smism, stotal = c.run_model(cli, "c14", sfile)
+                        simd[name]["model_mismatches"] = stotal[1]
+                        if smism:
+                            c.broken.append("%s build: %d disagreements with the model, first: %s" % (name, stotal[1], smism[0]))
+            shutil.rmtree(os.path.join(HARNESS, "target_c14_" + name), ignore_errors=True)
     # in-Coq subset (no extraction): a handful of boundary cases through vm_compute
     incoq = None
     if ok_mk:
@@ -73,7 +101,7 @@ def main():
         "theorems": {t: assumptions.get(t, "not checked") for t in THEOREMS},
         "translator_ok": ok_tr, "translator_errors": errs,
         "correspondence_cases": total[0], "correspondence_mismatches": total[1],
-        "oracle_checked": nchecked, "debug_build_cases": dbg_n,
+        "oracle_checked": nchecked, "debug_build_cases": dbg_n, "simd_builds": simd,
         "distribution": dist, "samples": samples, "in_coq_subset": incoq,
         "evaluations": nchecked, "distinct_nontrivial": len(dist),
         "rule": "boundary grid (46 representations squared) + mixed boundary/uniform operands from VERIF_SEED; "
@@ -81,7 +109,7 @@ def main():
     }
     c.finish("proof", coverage, [
         "the x86-64 asm body of add_no_canonicalize_trashing_input is compared, not translated (portable twin is proved)",
-        "AVX2/AVX-512 packed lanes are outside this check",
+        "AVX2/AVX-512 packed lanes are compared lane-wise with the oracle and the scalar model in the thorough tier (no model of the intrinsics)",
         "generic trait-default code (exp_u64, inverse_2exp, batch inverse, extension inverse/frobenius/square) is hand-modelled and tied by correspondence"])
 
 def replay(c, path):
